@@ -105,6 +105,8 @@ def main():
         # (a six-event family KKNNDN - a gate number handed out after a next hop was
         # released - was tried for seed C20/6: 2 of its 4 processes ended in a
         # CrossHair RecursionError after 300 s; not registered, recorded as a gap)
+        if os.environ.get("VERIF_C20_EXTRA"):
+            five.append(tuple("KKNNDN"))  # experimental, see the comment above
         only = os.environ.get("VERIF_C20_ONLY")  # debugging: one kind sequence
         for universe in ("A", "B"):
             for kinds in seqs + (five if universe == "A" else []):
